@@ -7,7 +7,7 @@ def run(script):
     return subprocess.run([sys.executable, os.path.join(HERE, script)], capture_output=True, text=True).stdout
 p = os.path.join(VERIF, "DESIGN.md")
 s = open(p).read()
-for name, script in (("STATUS", "mk_status_table.py"), ("SEEDED", "mk_seeded_table.py"), ("FINDINGS", "mk_findings_table.py"), ("TRUSTED", "mk_trusted_table.py")):
+for name, script in (("STATUS", "mk_status_table.py"), ("SEEDED", "mk_seeded_table.py"), ("FINDINGS", "mk_findings_table.py"), ("TRUSTED", "mk_trusted_table.py"), ("MUTANTS", "mk_mutants_table.py")):
     b, e = "<!-- BEGIN %s -->" % name, "<!-- END %s -->" % name
     if b in s and e in s:
         i0 = s.index(b) + len(b); i1 = s.index(e)
